@@ -262,7 +262,22 @@ class FnVerifier:
         if "keys" in g:
             ks = g["keys"]
             g2["keys"] = fresh(ks.t, base + ".keys")
+            self.assume_keys_wf(R, cell.content, g2["keys"])
+            if "size" in g2:
+                R.assume(z3.Length(g2["keys"].z) == g2["size"])
         R.heap[loc].ghost = g2
+
+    def assume_keys_wf(self, R, m, ks):
+        """insertion-order ghost of a dict, index form: every listed key is present, every present
+        key is listed (skolem position), no key is listed twice"""
+        has = m.t.has(m.z)
+        n = z3.Length(ks.z)
+        x = z3.Const(fresh_name("x"), m.t.k.sort())
+        pos = z3.Function(fresh_name("kpos"), m.t.k.sort(), z3.IntSort())
+        i, j = z3.Int(fresh_name("i")), z3.Int(fresh_name("j"))
+        R.assume(z3.ForAll([i], z3.Implies(z3.And(0 <= i, i < n), z3.Select(has, ks.z[i])), patterns=[ks.z[i]]))
+        R.assume(z3.ForAll([x], z3.Implies(z3.Select(has, x), z3.And(0 <= pos(x), pos(x) < n, ks.z[pos(x)] == x)), patterns=[z3.Select(has, x)]))
+        R.assume(z3.ForAll([i, j], z3.Implies(z3.And(0 <= i, i < j, j < n), ks.z[i] != ks.z[j])))
 
     def assume_cnt_wf(self, R, content, cnt):
         """link between a sequence and its ghost multiset count, in E-matching friendly index form:
@@ -374,8 +389,7 @@ class FnVerifier:
                 kt = T.Seq(ty.k)
                 ks = V(kt, z3.Const(name + ".keys", kt.sort()))
                 g["keys"] = ks
-                x = z3.Const(fresh_name("x"), ty.k.sort())
-                R.assume(z3.ForAll([x], z3.Select(c.t.has(c.z), x) == z3.Contains(ks.z, z3.Unit(x))))
+                self.assume_keys_wf(R, c, ks)
                 R.assume(z3.Length(ks.z) == sz)
             R.heap[r.z].ghost = g
             return r
@@ -455,7 +469,7 @@ class FnVerifier:
                 c = REGISTRY.get((self.c.prop, tgt))
                 if c is None:
                     for (p, t), cc in REGISTRY.items():
-                        if t == tgt:
+                        if t == tgt or cc.key == tgt:
                             c = cc
                             break
                 if c is None:
@@ -463,7 +477,7 @@ class FnVerifier:
                 return c
         # same file, same simple name / Class.method
         for (p, t), cc in REGISTRY.items():
-            if p != self.c.prop:
+            if p != self.c.prop or cc.variant_id:
                 continue
             f, q = t.split("::")
             if f != self.relpath:
@@ -878,9 +892,12 @@ class FnVerifier:
                 v = self.symbolic_value(R, pty, p)
                 frame.env[p] = v
                 R.inputs.append((p, v))
-            # ghost state
-            for gname, (gty, ginit) in c.ghost_state.items():
-                pass
+            # declared aliasing between parameters / fields (A5': none unless the contract says so)
+            for aname, asrc in c.config.get("aliases", {}).items():
+                R.entry_heap = R.heap
+                R.base_env = dict(R.globals_)
+                R.base_env.update(frame.env)
+                frame.env[aname] = self.spec_in_env(R, asrc, R.base_env)
             R.entry_heap = R.snapshot()
             from .modelval import term_tree
             R.inputs = [(n_, term_tree(R, v_, R.entry_heap)) for n_, v_ in R.inputs]
